@@ -11,7 +11,7 @@ RULE = (
     "vertex.pose + delta; O2: forward-mode AD of the independent reference error model w.r.t. the reference boxplus. "
     "History: calc_jacobians is called before any other query on the fresh edge and again right after the vertices are moved to a second state "
     "(an independent pose, or the same physical pose in another representation: -q / theta+2pi), so a Jacobian that depends on earlier calls is caught. "
-    "Non-trivial = an operand outside the suite's box [0,1)^k or an offset with non-identity rotation; distinct = hash of the case."
+    "Non-trivial = an operand outside the suite's box [0,1)^k or an offset with non-identity rotation; distinct = hash of the case. Histories added later: the measurement / offset objects are edited in place (third state), and the matrices returned by the first call must keep their values while later calls are made."
 )
 BUDGET = {"quick": 16 * 4000, "thorough": 16 * 60000}
 TOLERANCES = {
